@@ -222,6 +222,42 @@ theorem leg_mi_mem_formOk (ctx : Spec.X86.Ctx) (rule : Rule) (p : Parsed) (mb : 
     | (intro hh; exact hdig hh)
     | omega
     | simp_all
+/-- legacy shape [MEM, register not encoded] (shift by CL: the fixed register has role none; `hic`: its conditions) -/
+theorem leg_mreg_mem_formOk (ctx : Spec.X86.Ctx) (rule : Rule) (p : Parsed) (mb : BitVec 8) (bytes pfx : List (BitVec 8)) (pp d nimm : Nat)
+    (f0 f3 : FormOp) (m : MemOp) (k1 : RegKind) (i1 : Nat)
+    (hm64 : ctx.mode64 = true) (hmode : (rule.modes &&& 2 != 0) = true)
+    (R : LegRuleMD rule nimm pp d) (hdig : d < 8 → bits mb 3 3 = d) (hf0 : f0.role = .rm)
+    (hic : allOk (opConds ctx rule p 0 f3 (.reg k1 i1)).1 = true)
+    (K : PfxCountsL pfx m pp) (hvs : vsibOf m = .none) (hbc : m.bcst = 0)
+    (hal : alignOps rule.oszEff rule.ops [.mem m, .reg k1 i1] = some [(f0, some (.mem m)), (f3, some (.reg k1 i1))])
+    (hparse : parse true rule bytes = .ok p) (P : LegParsedM rule p mb pfx)
+    (hcm : checkMem ctx rule p m = .ok ()) :
+    formOk ctx rule [.mem m, .reg k1 i1] {} bytes = true := by
+  obtain ⟨hvk, hpfx, hmodrm, hmod, hop, hw, hR'⟩ := P
+  obtain ⟨hs, hpp8, h66, hF3, hF2, hpplt, hri, hmk, hmr, hmrm, himm, hrel, hmoff, ha67, hrev⟩ := R
+  obtain ⟨c66, cF3, cF2, cF0, c9B, cseg, c67, ccont⟩ := K
+  have hleg : isLegacySpace rule = true := by simp [isLegacySpace, hs]
+  have hmod' : (bits mb 6 2 == 3) = false := by simpa using hmod
+  have h2 : (opConds ctx rule p 0 f0 (.mem m)).2 = 0 := by simp [opConds, hf0, hmodrm]
+  simp only [formOk, conds, hm64, hal, hparse, ↓reduceIte, hmode]
+  simp only [operandConds, h2]
+  generalize opConds ctx rule p 0 f3 (.reg k1 i1) = X at hic ⊢
+  simp only [allOk_cons, allOk_append, decorConds, headConds, prefixConds, modrmConds, operandConds, opConds, tailConds, hf0,
+    allOk_nil, memOperandOf, implMemOf, usesVvvv, memDestOf, hcm, hic, Spec.X86.ofExcept,
+    hasBcst, hleg, hri, hmodrm, hpfx, hvk, c66, cF3, cF2, cF0, c9B, cseg, ccont, h66, hF3, hF2, hR', List.foldl, List.find?]
+  simp [hop, hmod', hmr, hmrm, hs, hpp8, ha67, hbc, hvs, hm64, allOk]
+  and_intros
+  all_goals first
+    | exact hw
+    | exact c67
+    | rfl
+    | (cases segPrefix m.seg <;> rfl)
+    | (refine Or.inr ?_; simpa using ccont)
+    | (rcases hmk with h | h <;> omega)
+    | (intro hh; have := hdig hh; omega)
+    | (intro hh; exact hdig hh)
+    | omega
+    | simp_all
 /-- legacy shape [reg, MEM, imm8] -/
 theorem leg_rmi_mem_formOk (ctx : Spec.X86.Ctx) (rule : Rule) (p : Parsed) (mb : BitVec 8) (bytes pfx : List (BitVec 8)) (pp : Nat)
     (k0 : RegKind) (f0 f1 : FormOp) (i0 : Nat) (m : MemOp)
